@@ -236,21 +236,23 @@ impl<'a> Ctx<'a> {
                 MValue::List(items)
             }
             MType::Named(n) => match n.as_str() {
-                "Int" => MValue::Int(ch.pick(&["0", "1", "42", "-7", "2147483647"]).to_string()),
+                "Int" => MValue::Int(ch.pick(&["0", "1", "42", "-7", "2147483647", "-2147483648", "-0"]).to_string()),
                 "Float" => {
                     if self.o.int_for_float && ch.chance(1, 3) {
                         self.labels.insert("int-literal-for-float");
-                        MValue::Int(ch.pick(&["1", "0", "-3"]).to_string())
+                        // an integer literal in a Float position is not bound to 32 bits
+                        MValue::Int(ch.pick(&["1", "0", "-3", "2147483648", "-9007199254740993", "12345678901234567890"]).to_string())
                     } else {
-                        MValue::Float(ch.pick(&["1.5", "0.0", "-2.25", "1e3", "6.02E+23"]).to_string())
+                        MValue::Float(ch.pick(&["1.5", "0.0", "-2.25", "1e3", "6.02E+23", "-0.0", "1E-7"]).to_string())
                     }
                 }
-                "String" => MValue::Str(ch.pick(&["", "x", "hello world", "caf\u{e9}", "q\"uote", "line\nbreak"]).to_string()),
+                "String" => MValue::Str(ch.pick(&["", "x", "hello world", "caf\u{e9}", "q\"uote", "line\nbreak", "\u{20BB7}\u{1F600} planes 2 and 1", "\u{10FFFD} plane 16"]).to_string()),
                 "Boolean" => MValue::Bool(ch.flip()),
                 "ID" => {
                     if self.o.int_for_id && ch.chance(1, 3) {
                         self.labels.insert("int-literal-for-id");
-                        MValue::Int(ch.pick(&["1", "123"]).to_string())
+                        // (an ID given as an integer literal is not bound to 32 bits either)
+                        MValue::Int(ch.pick(&["1", "123", "4294967296", "9223372036854775808"]).to_string())
                     } else {
                         MValue::Str(ch.pick(&["1", "abc"]).to_string())
                     }
@@ -288,7 +290,7 @@ impl<'a> Ctx<'a> {
                             // custom scalar: any literal
                             self.labels.insert("custom-scalar-literal");
                             match ch.below(5) {
-                                0 => MValue::Int("7".into()),
+                                0 => MValue::Int(ch.pick(&["7", "1700000000000", "-99999999999"]).to_string()),
                                 1 => MValue::Str("2020-01-01".into()),
                                 2 => MValue::Float("1.5".into()),
                                 3 => MValue::Bool(true),
